@@ -635,6 +635,63 @@ let do_storm id ins outs =
     else verdict "storm" id "spec:C04" tag (Printf.sprintf "capacity=%s max inside resolver during storm=%s, inside together afterwards=%s (events %s)" k md ba evs)
   | _ -> verdict "storm" id "diff" "malformed-line" ""
 
+(* ---- engine resolvconf ----
+   rc <id> <file|link> <contenthex> <events> => <states>   state: r=..,b=..,t=.. with N | F<hex> | L<hex> *)
+let do_rc id ins outs =
+  match ins, outs with
+  | [kind; content; evs], [states] ->
+    let c = bytes_of_token content in
+    let n0 = if kind = "link" then Link c else File c in
+    let enc_node = function None -> "N" | Some (File b) -> "F" ^ (match b with [] -> "-" | _ -> hex_of_string (string_of_bytes b))
+                            | Some (Link b) -> "L" ^ (match b with [] -> "-" | _ -> hex_of_string (string_of_bytes b)) in
+    let enc f = Printf.sprintf "r=%s,b=%s,t=%s" (enc_node f.resolv) (enc_node f.bak) (enc_node f.tmp) in
+    let rec nat_of_int n = if n <= 0 then O else S (nat_of_int (n-1)) in
+    let evl = split_on ';' evs and stl = split_on ';' states in
+    let problems = ref [] and specs = ref [] in
+    let orig_ok f = (f.resolv = Some n0 && f.bak = None) || f.bak = Some n0 in
+    let ncrash = ref 0 in
+    let _ = List.fold_left2 (fun f e st ->
+        let f' = (match split_on ':' e with
+          | ["A"; dns; k] ->
+            let d = bytes_of_token dns in
+            let ops = activate_ops f d in
+            let nops = List.length ops in
+            let ki = int_of_string k in
+            (* negative k = "killed on entry of the j-th rename": translate with the op list *)
+            let kk = if ki >= 0 then ki else begin
+                let j = - ki in
+                let idxs = List.filteri (fun _ _ -> true) (List.mapi (fun i o -> (i, o)) ops) in
+                let renames = List.filter (fun (_, o) -> match o with Rename (_, _) -> true | _ -> false) idxs in
+                if List.length renames >= j then fst (List.nth renames (j-1)) else nops end in
+            if kk < nops then incr ncrash;
+            crash_activate f d (nat_of_int kk)
+          | ["D"; k] -> let ki = int_of_string k in if ki < List.length (deactivate_ops f) then incr ncrash; crash_deactivate f (nat_of_int ki)
+          | _ -> failwith "rc event") in
+        (* the temporary file of a killed writer may hold a partial last line only if a write was torn: never with one write per line *)
+        if enc f' <> st then problems := Printf.sprintf "after %s: impl=%s model=%s" e st (enc f') :: !problems;
+        (* spec on the implementation's own state: the original is intact at resolv.conf or at the backup *)
+        let has_orig =
+          (let r = List.nth (split_on ',' st) 0 and b = List.nth (split_on ',' st) 1 in
+           let on = enc_node (Some n0) in
+           (r = "r=" ^ on && b = "b=N") || b = "b=" ^ on) in
+        if not has_orig then specs := "C19" :: !specs;
+        (* after a completed activation the file names only the proxy *)
+        (match split_on ':' e with
+         | ["A"; dns; "999"] ->
+           let r = List.nth (split_on ',' st) 0 in
+           if String.length r > 3 && r.[2] = 'F' then begin
+             let cont = bytes_of_token (String.sub r 3 (String.length r - 3)) in
+             if nameservers cont <> [bytes_of_token dns] then specs := "C19" :: !specs
+           end
+         | _ -> ());
+        ignore (orig_ok f');
+        f') { resolv = Some n0; bak = None; tmp = None } evl stl in
+    let tag = Printf.sprintf "%s/ev%d/crash%d" kind (List.length evl) (min !ncrash 3) in
+    if !specs <> [] then verdict "rc" id "spec:C19" tag (String.concat "; " (List.rev !problems))
+    else if !problems = [] then verdict "rc" id "ok" tag ""
+    else verdict "rc" id "diff" tag (String.concat "; " (List.rev !problems))
+  | _ -> verdict "rc" id "diff" "malformed-line" ""
+
 let () =
   try
     while true do
@@ -649,6 +706,7 @@ let () =
       | "clist" :: id :: rest -> let (i, o) = split_arrow rest in do_clist id i o
       | "rhist" :: id :: rest -> let (i, o) = split_arrow rest in do_rhist id i o
       | "fault" :: id :: rest -> let (i, o) = split_arrow rest in do_fault id i o
+      | "rc" :: id :: rest -> let (i, o) = split_arrow rest in do_rc id i o
       | "storm" :: id :: rest -> let (i, o) = split_arrow rest in do_storm id i o
       | "listen" :: id :: rest -> let (i, o) = split_arrow rest in do_listen id i o
       | "mgr" :: id :: rest -> let (i, o) = split_arrow rest in do_mgr id i o
